@@ -5,13 +5,18 @@ Theorems: lean/ArmiVerif/Props/C10.lean over lean/ArmiVerif/Model/XsLib.lean.
 Tie (1) merge: generated library sets (group counts, nuclide labels with XS-ID suffixes, optional
 reactions, sparse scatter, injected conflicts) built through the real IsotxsLibrary / XSNuclide /
 XSCollection classes plus the fixture libraries of armi/nuclearDataIO/tests/fixtures, merged into a fresh
-library in every order (<= 4 libraries); after every merge attempt the canonical state of the real target
-is compared with the model's (`mergeseq`).  Oracle on the real objects: union of labels, payload identity
-with the source, order independence of success and content, conflict => rejected, rejected => target
-unchanged (snapshot before / after).
-Tie (2) macros: computeMacroscopicGroupConstants / energy deposition / generation constants /
-MacroscopicCrossSectionCreator vs the Rat model on generated compositions (zero densities, nuclides missing
-from the library, missing reactions); oracle: direct Fraction sums, linearity, additivity, derived sums.
+library in every order (<= 5 libraries); after every merge attempt the canonical state of the real target
+is compared with the model's (`mergeseq`; `mergeall` = going on after rejected merges; `mergeallchi` = with
+file-wide chi).  Oracle on the real objects: union of labels, payload identity with the source, order
+independence of success and content, conflict => rejected, rejected => target unchanged (snapshot before /
+after), per step when the sequence goes on after a rejection; every conflict kind x position of the
+conflicting nuclide; the working-directory flow on scratch copies of the fixture files.  `wf`: the
+theorems' hypothesis Lib.WF evaluated by the model on every library merged.
+Tie (2) macros: computeMacroscopicGroupConstants (also with multLib) / energy deposition / generation
+constants / MacroscopicCrossSectionCreator piece by piece AND as one model call (`creator`: densities
+filter, nucNames, lookups, neutron / gamma) vs the Rat model on generated compositions (zero densities,
+nuclides missing from the library, missing reactions); oracle: direct Fraction sums, linearity,
+additivity, derived sums, block-average chi.
 """
 import itertools
 import json
@@ -24,17 +29,22 @@ from harness.common import Failure, frac, lean_run, rat
 PROP_MODULES = ["ArmiVerif.Props.C10"]
 BUILD_TARGETS = ["ArmiVerif.Model.XsLib"]
 PARTIAL = ("payloads (arrays, strings, dicts) are identities: equality of payloads (numpyHackForEqual) is a parameter "
-           "interned by the harness; FILE-WIDE CHI is outside the Lean model and the theorems (the driver refuses such libraries; "
-           "NuclideXSMetadata._getSkippedKeys' chiFlag side effect is NOT transcribed): it is judged by the oracle alone "
-           "(run_chi: every fissile nuclide keeps a usable chi, chi = source's, write/read round trip, all orders, 0/1/2 "
-           "file-wide-chi libraries) and there success IS order-dependent in the code (known finding); higherOrderScatter and "
+           "interned by the harness (quirk outside the domain: an EMPTY ndarray compares equal to any non-array value); "
+           "FILE-WIDE CHI: transcribed (Lib.mergeChi / mergeAllChi incl. the chiFlag side effect of _getSkippedKeys on both "
+           "libraries) and compared state by state with the real merges, proved a conservative extension of the chi-free "
+           "model and to leave every fissile nuclide with its own chi when a chi is dropped; order independence / union / "
+           "identity are PROVED ONLY for libraries without a file-wide chi (with one they are judged by the oracle: run_chi, "
+           "all orders, write/read round trip); fisFlag outside {absent, 0, 1} is outside the chi model; higherOrderScatter and "
            "nOrderProductionMatrix are outside the model (oracle only); neutronVelocity and libraryLabel are "
            "first-one-wins by design and excluded from 'content'; 'rejected merges leave the target unchanged' is proved "
-           "only for the cases of merge_failure_atomic_partial / merge_failure_keeps_metadata and REFUTED in general "
-           "(three witnesses = three known findings); 'zero for an empty composition' holds for the defining sum, the code "
-           "returns None (known finding); macroscopic layer over exact rationals, floating-point rounding not proved "
-           "(tolerance 1e-9 of the largest component); compositions where only some contributing nuclides lack the "
-           "requested data are judged by the oracle alone; diffusionConstants compared by oracle only")
+           "only for the cases of merge_failure_atomic_partial / merge_failure_keeps_metadata, BOUNDED by merge_failure_frame / "
+           "merge_properties_frame / merge_keeps_WF and REFUTED in general (three witnesses = three known findings); 'zero for "
+           "an empty composition' holds for the defining sum, the code returns None (known finding); macroscopic layer over "
+           "exact rationals, floating-point rounding not proved (tolerance 1e-9 of the largest component); compositions where "
+           "only some contributing nuclides lack the requested data are judged by the oracle alone; diffusionConstants "
+           "compared by oracle only; the creator model rejects vectors whose length differs from ng (numpy would broadcast a "
+           "length-1 array); mergeXSLibrariesInWorkingDirectory / getISOTXSLibrariesToMerge (file selection, dummy nuclides, "
+           "file I/O) are outside the Lean model: oracle only, on scratch copies of the fixture files")
 ASSUMPTIONS = [
     "numpyHackForEqual(a, b) <=> equal interned identity (same shape/content); NaN-free payloads",
     "metadata dicts hold no None values and no file-wide chi on the modelled domain",
@@ -48,11 +58,19 @@ SCAT = ("elasticScatter", "inelasticScatter", "n2nScatter", "elasticScatter1stOr
 FIX = None
 
 
+def op(name):
+    """driver op following the code that is present: with the rollback of notes/candidate-fixes-C10/atomic-merge-rollback.diff
+    applied (IsotxsLibrary._rememberStateForRollback exists) the model is Lib.mergeAtomic (target restored on rejection)"""
+    from armi.nuclearDataIO import xsLibraries
+    return name + ("A" if hasattr(xsLibraries.IsotxsLibrary, "_rememberStateForRollback") else "")
+
+
 # ----------------------------------------------------------------------------- interning
 class Intern:
     def __init__(self):
-        self.keys = {"chi": 0, "libraryLabel": 1}
-        self.vals = {("s", ""): 0}
+        # reserved ids of Model/XsLib.lean (keyChi .. keyChiFlag, valFalsy, valZero, valOne)
+        self.keys = {"chi": 0, "libraryLabel": 1, "fileWideChiFlag": 2, "fisFlag": 3, "chiFlag": 4}
+        self.vals = {("s", ""): 0, ("n", 0.0): 1, ("n", 1.0): 2}
         self.labels = {}
         self.files = {}
 
@@ -107,6 +125,10 @@ def to_payload(name, v, fresh_defaults=False):
     if isinstance(v, list) and len(v) == 2 and v[0] == "DEFAULT":
         from armi.nuclearDataIO import xsCollections
         return np.zeros(v[1]) if fresh_defaults else xsCollections.XSCollection.getDefaultXs(v[1])
+    if name == "higherOrderScatter":     # {key: matrix} as the ISOTXS / GAMISO readers store Legendre orders > 0
+        return {k: sparse.csr_matrix(np.array(m, dtype=float)) for k, m in v.items()}
+    if name == "nOrderProductionMatrix":  # {order: matrix} of the PMATRX reader
+        return {k: np.array(m, dtype=float) for k, m in v.items()}
     if isinstance(v, list):
         a = np.array(v, dtype=float)
         if name in SCAT:
@@ -260,6 +282,10 @@ def gen_collection(rng, ng, gamma=False):
             d[a] = [[dy(rng, 0, 2) if (rng.random() < 0.4 and j <= i + 1) else 0.0 for j in range(ng)] for i in range(ng)]
     if not d:
         d["nGamma"] = [dy(rng, 0, 4) for _ in range(ng)]
+    if rng.random() < 0.35:   # higher Legendre orders (outside the Lean model; oracle: kept identical to the source)
+        d["higherOrderScatter"] = {f"{kind}-{order}": [[dy(rng, 0, 2) if rng.random() < 0.5 else 0.0 for _ in range(ng)] for _ in range(ng)]
+                                   for kind in rng.sample(["elastic", "inelastic", "n2n"], rng.randint(1, 2))
+                                   for order in range(1, rng.randint(2, 3))}
     return d
 
 
@@ -313,6 +339,8 @@ def gen_lib(rng, kind, suffix, bases, ng, ngam, fname, nsalt=0, gsalt=0, dcf=Fal
                 a["isotropicProduction"] = [[dy(rng, 0, 2) for _ in range(ng)] for _ in range(ngam)]
             if rng.random() < 0.3:
                 a["linearAnisotropicProduction"] = [[dy(rng, 0, 2) for _ in range(ng)] for _ in range(ngam)]
+                if rng.random() < 0.6:
+                    a["nOrderProductionMatrix"] = {str(o): [[dy(rng, 0, 2) for _ in range(ng)] for _ in range(ngam)] for o in (2, 3)}
             n["attrs"] = a
         spec["nucs"].append([b + suffix, n])
     return spec
@@ -336,11 +364,11 @@ def spec_union(a, b):
     return out
 
 
-def gen_scenario(rng, ctx):
-    """a list of 2..4 library specs + a tag naming the injected conflict (or 'clean')"""
+def gen_scenario(rng, ctx, cap=4):
+    """a list of 2..cap library specs + a tag naming the injected conflict (or 'clean')"""
     ng = rng.choice([1, 2, 3, 4]) if not ctx.thorough else rng.choice([1, 2, 3, 4, 6, 9, 33])
     ngam = rng.choice([1, 2, 3])
-    sufs = rng.sample(["AA", "AB", "BA", "ZZ"], rng.choice([1, 2, 2]))
+    sufs = rng.sample(["AA", "AB", "BA", "ZZ"], rng.choice([1, 2, 2]) if cap <= 4 else rng.choice([2, 3]))
     pool = []
     basesets = {}
     for s in sufs:
@@ -449,11 +477,11 @@ def gen_scenario(rng, ctx):
     if tag != "clean":
         last = pool.pop()
         rng.shuffle(pool)
-        pool = pool[:3] + [last]
+        pool = pool[:cap - 1] + [last]
         rng.shuffle(pool)
     else:
         rng.shuffle(pool)
-        pool = pool[:4]
+        pool = pool[:cap]
     if len(pool) < 2:
         pool.append(gen_lib(rng, "iso", "YY", rng.sample(BASES, 2), ng, ngam, "ISOYY"))
     return pool, tag
@@ -612,6 +640,129 @@ def oracle_scenario(ctx, it, attrs, items, tag, case_id, orders, sink):
     return srcs_ordered, results, conflict
 
 
+def norm_props(s):
+    """'never assigned' and 'holds None' identified (an unlocked read gives None for both)"""
+    return (tuple("N" if v == "_" else v for v in s[0]), s[1], s[2])
+
+
+def run_all(it, attrs, items, order):
+    """`for o in libs: try: target.merge(o) except Exception: pass` on the real classes: every step's
+    (target before, other, accepted?, target after, error) and the final snapshot"""
+    from armi.nuclearDataIO import xsLibraries
+    target = xsLibraries.IsotxsLibrary()
+    steps = []
+    for idx in order:
+        other = make_lib(items[idx])
+        before = snap(it, target, attrs)
+        osnap = snap(it, other, attrs)
+        oextra = extra_fingerprint(it, other)
+        bextra = extra_fingerprint(it, target)
+        err = None
+        try:
+            target.merge(other)
+        except Exception as e:  # noqa: the property does not name the error class
+            err = type(e).__name__
+        steps.append({"before": before, "other": osnap, "ok": err is None, "after": snap(it, target, attrs), "err": err,
+                      "extra": (bextra, oextra, extra_fingerprint(it, target))})
+    return steps, snap(it, target, attrs)
+
+
+def oracle_steps(it, steps, case, sink):
+    """the property's clauses on every single merge of a sequence that goes on after rejections: the target a library is
+    merged into may itself be the survivor of a rejected merge"""
+    for k, st in enumerate(steps):
+        c = dict(case, step=k)
+        b, o, a = st["before"], st["other"], st["after"]
+        conflict = expected_conflict([b, o])
+        if not st["ok"]:
+            if b != a:
+                sink(atomic_key(b, a), "a rejected merge leaves the target unchanged", c,
+                     {"error": st["err"], "step": k}, "target snapshot unchanged")
+            continue
+        if conflict:
+            sink("merge-conflict-accepted", f"conflicting inputs ({conflict}) must be rejected, never combined", c,
+                 "merge succeeded", "exception")
+            continue
+        bl, ol = {n[0]: n for n in b[2]}, {n[0]: n for n in o[2]}
+        got = [n[0] for n in a[2]]
+        if set(got) != set(bl) | set(ol) or len(got) != len(set(got)):
+            sink("merge-labels-union", "merged library holds exactly the union of the nuclide labels", c, sorted(got),
+                 sorted(set(bl) | set(ol)))
+        for n in a[2]:
+            for f in range(1, 6):
+                holders = {x[n[0]][f] for x in (bl, ol) if n[0] in x and x[n[0]][f]}
+                if (len(holders) == 1 and n[f] != next(iter(holders))) or (not holders and n[f]):
+                    sink("merge-payload-identity", "nuclide data/metadata identical to its source", c,
+                         {"label": n[0], "field": f, "got": n[f]}, sorted(map(str, holders)))
+            for i in range(5):
+                holders = {x[n[0]][6][i] for x in (bl, ol) if n[0] in x and x[n[0]][6][i] != "N"}
+                if (len(holders) == 1 and n[6][i] != next(iter(holders))) or (not holders and n[6][i] != "N"):
+                    sink("merge-payload-identity", "nuclide attribute identical to its source", c,
+                         {"label": n[0], "attr": ATTRS[i], "got": n[6][i]}, sorted(map(str, holders)))
+        for pi in (0, 1, 3, 4):
+            vals = {x[0][pi] for x in (b, o) if x[0][pi] not in ("_", "N")}
+            if len(vals) == 1 and a[0][pi] != next(iter(vals)):
+                sink("merge-group-structure-kept", "group structure / dose factors identical to the source", c, a[0][pi], next(iter(vals)))
+        bx, ox, ax = st["extra"]
+        empty = it.val({})
+        src = {}
+        for row in bx + ox:
+            for j in (1, 2, 3):
+                if row[j] != empty:
+                    src.setdefault((row[0], j), set()).add(row[j])
+        for row in ax:
+            for j in (1, 2, 3):
+                h = src.get((row[0], j), set())
+                if len(h) == 1 and row[j] != next(iter(h)):
+                    sink("merge-payload-identity-higher-order", "higher-order scatter / n-order production kept", c,
+                         {"label": row[0], "slot": j}, None)
+
+
+FULL_PM = ("neutronHeating", "neutronDamage", "gammaHeating", "isotropicProduction", "linearAnisotropicProduction")
+CONFLICT_KINDS = ("isotxsMetadata", "gamisoMetadata", "pmatrxMetadata", "micros", "gammaXS") + FULL_PM
+
+
+def positioned_conflicts(rng, ng=2, ngam=2):
+    """EVERY kind of nuclide-level conflict x EVERY position of the conflicting nuclide in the other library (first /
+    middle / last): the target (ISOTXS + GAMISO + PMATRX data of XS ID AA, all five production attributes set) is offered
+    a library of two new nuclides plus one nuclide whose label it already holds and which carries exactly ONE kind of
+    data (with consistent metadata) or one differing metadata block.  Returns (items, tag, position)."""
+    out = []
+    bases = ["U235", "FE56", "NA23"]
+    for kind in CONFLICT_KINDS:
+        for pos in ("first", "middle", "last"):
+            tiso = gen_lib(rng, "iso", "AA", bases, ng, ngam, "ISOAA")
+            tgam = gen_lib(rng, "gam", "AA", bases, ng, ngam, "AA.gamiso")
+            tpm = gen_lib(rng, "pm", "AA", bases, ng, ngam, "AA.pmatrx")
+            for _l, n in tpm["nucs"]:
+                n["attrs"] = {"neutronHeating": [dy(rng, 0, 4) for _ in range(ng)], "neutronDamage": [dy(rng, 0, 4) for _ in range(ng)],
+                              "gammaHeating": [dy(rng, 0, 4) for _ in range(ngam)],
+                              "isotropicProduction": [[dy(rng, 0, 2) for _ in range(ng)] for _ in range(ngam)],
+                              "linearAnisotropicProduction": [[dy(rng, 0, 2) for _ in range(ng)] for _ in range(ngam)]}
+            victim = rng.choice(bases) + "AA"
+            src = {m: json.loads(json.dumps(next(n for l, n in t["nucs"] if l == victim)[m]))
+                   for t, m in ((tiso, "isotxsMetadata"), (tgam, "gamisoMetadata"), (tpm, "pmatrxMetadata"))}
+            if kind.endswith("Metadata"):
+                bad = dict(src[kind])
+                # (numpyHackForEqual calls an EMPTY ndarray equal to any non-array value: only scalar entries are replaced)
+                bad[rng.choice(sorted(k for k, v in bad.items() if not isinstance(v, (list, dict))))] = "differs"
+                n = {kind: bad}
+            elif kind == "micros":
+                n = {"isotxsMetadata": src["isotxsMetadata"], "micros": gen_collection(rng, ng)}
+            elif kind == "gammaXS":
+                n = {"gamisoMetadata": src["gamisoMetadata"], "gammaXS": gen_collection(rng, ngam, gamma=True)}
+            else:
+                shape = (ngam,) if kind == "gammaHeating" else (ng,) if kind.startswith("neutron") else (ngam, ng)
+                arr = [dy(rng, 0, 4) for _ in range(shape[0])] if len(shape) == 1 else [[dy(rng, 0, 2) for _ in range(shape[1])] for _ in range(shape[0])]
+                n = {"pmatrxMetadata": src["pmatrxMetadata"], "attrs": {kind: arr}}
+            fresh = gen_lib(rng, "iso", "QQ", rng.sample(["O16", "B10", "C", "MO"], 2), ng, ngam, "x")["nucs"]
+            nucs = list(fresh)
+            nucs.insert({"first": 0, "middle": 1, "last": 2}[pos], [victim, n])
+            other = {"props": {}, "nucs": nucs}
+            out.append(([tiso, tgam, tpm, other], f"positioned-{kind}-{pos}", pos))
+    return out
+
+
 def directed_scenarios():
     """fixed scenarios that run first on every seed: group-structure conflicts where ONLY the write-once energy bounds
     differ (same group count, bounds scaled by 1.05; file metadata identical), as 2nd..4th library of a chain, for neutron
@@ -754,20 +905,25 @@ def run_merge(ctx):
         if ctx.hist["oracle failure: " + key] <= 3:
             ctx.fail(key, clause, case, observed=obs, expected=exp)
 
+    wfset = {}
+
     def one(items, tag, orders):
         srcs, results, conflict = oracle_scenario(ctx, it, attrs, items, tag, None, orders, sink)
+        for x in srcs:
+            wfset.setdefault(enc_lib(x), tag)
         ctx.count(f"scenario {tag}")
         if conflict:
             ctx.count("expected conflict: " + conflict)
         for order in orders:
             r = results[order]
-            req.append("mergeseq " + " ".join(enc_lib(srcs[i]) for i in order))
+            req.append(op("mergeseq") + " " + " ".join(enc_lib(srcs[i]) for i in order))
             impl.append(f"{r['nok']} {'T' if r['ok'] else 'F'} {enc_lib(r['final'])}")
             cases.append({"libs": items, "order": list(order), "tag": tag})
             ctx.count("merge sequence accepted" if r["ok"] else f"merge sequence rejected ({r['err']})")
             ctx.case(("merge", hash((tuple(srcs[i] for i in order)))), nontrivial=len(order) > 1,
                      sample={"tag": tag, "order": list(order), "ok": r["ok"], "labels": [len(srcs[i][2]) for i in order]}
                      if len(ctx.samples) < 3 else None)
+        return results
 
     # (a) fixture libraries
     fx = ["isoAA", "isoAB", "gamAA", "gamAB", "pmAA", "pmAB"]
@@ -784,15 +940,76 @@ def run_merge(ctx):
     for items, tag in directed_scenarios():
         one(items, tag, merge_orders(len(items), rng, 24))
     # (c) generated scenarios, every order
-    ns = ctx.pick(140, 2000)
+    ns = ctx.pick(120, 2000)
     for _ in range(ns):
         items, tag = gen_scenario(rng, ctx)
         one(items, tag, merge_orders(len(items), rng, 24))
-    model = lean_run("XsLib", req)
+    # (d) five libraries, sampled orders
+    for _ in range(ctx.pick(5, 80)):
+        items, tag = gen_scenario(rng, ctx, cap=5)
+        one(items, tag + "/cap5", merge_orders(len(items), rng, ctx.pick(6, 24)))
+        ctx.count(f"scenario size {len(items)}")
+    # (e) every nuclide-level conflict kind x position of the conflicting nuclide in the other library; a conflict on the
+    #     FIRST nuclide of a library that brings nothing else must leave the target's content exactly as it was
+    import random
+    second = positioned_conflicts(rng, ng=rng.choice([1, 3]), ngam=rng.choice([1, 3]))
+    for items, tag, pos in positioned_conflicts(random.Random(77)) + (second if ctx.thorough else rng.sample(second, 9)):
+        orders = [(0, 1, 2, 3), tuple(rng.sample([0, 1, 2], 3)) + (3,), (3, 0, 1, 2)]
+        results = one(items, tag, orders)
+        for order in orders:
+            if order[-1] != 3:
+                continue
+            r = results[order]
+            ctx.count(f"positioned conflict ({pos}): " + ("accepted" if r["ok"] else "rejected"))
+            if r["ok"]:
+                continue   # already reported by the oracle as merge-conflict-accepted
+            if pos == "first" and (r["nok"] != 3 or norm_props(r["before"]) != norm_props(r["after"])):
+                sink("rejected-merge-mutates-target-before-first-conflict",
+                     "a merge rejected on the first statement that can conflict leaves the target's content unchanged",
+                     {"libs": items, "order": list(order), "tag": tag}, {"error": r["err"], "merges_ok_before": r["nok"]},
+                     "target content unchanged")
+    # (f) sequences that GO ON after a rejected merge (model: mergeAll)
+    req2, impl2, cases2 = [], [], []
+
+    def go_on(items, tag, order):
+        srcs = [snap(it, make_lib(x), attrs, keep_order=True) for x in items]
+        steps, final = run_all(it, attrs, items, order)
+        case = {"libs": items, "order": list(order), "tag": tag, "continue_after_rejection": True}
+        oracle_steps(it, steps, case, sink)
+        req2.append(op("mergeall") + " " + " ".join(enc_lib(srcs[i]) for i in order))
+        impl2.append("[" + ",".join("T" if st["ok"] else "F" for st in steps) + "] " + enc_lib(final))
+        cases2.append(case)
+        flags = [st["ok"] for st in steps]
+        late = any(not a and any(flags[i + 1:]) for i, a in enumerate(flags))
+        ctx.count("go-on sequence: " + ("accepted merge after a rejected one" if late else "nothing rejected" if all(flags) else "rejections only at the end"))
+        ctx.case(("go-on", hash(tuple(srcs[i] for i in order))), nontrivial=late)
+
+    go_on([{"fixture": "isoAA"}, {"fixture": "isoAA"}, {"fixture": "isoAB"}, {"fixture": "gamAA"}], "fixtures-go-on", (0, 1, 2, 3))
+    go_on([{"fixture": "isoAA"}, {"fixture": "f7:"}, {"fixture": "gamAB"}, {"fixture": "pmAA"}], "fixtures-f7-go-on", (0, 1, 2, 3))
+    for _ in range(ctx.pick(45, 800)):
+        items, tag = gen_scenario(rng, ctx, cap=rng.choice([3, 4, 5]))
+        if tag == "clean" and rng.random() < 0.7:
+            items.insert(rng.randrange(len(items) + 1), json.loads(json.dumps(rng.choice(items))))   # a duplicate somewhere
+            tag = "dup-somewhere"
+        for order in merge_orders(len(items), rng, 2):
+            go_on(items, tag, order)
+    model = lean_run("XsLib", req + req2)
     if any(m in ("bad-op", "out-of-domain") for m in model):
         from harness.common import Infra
-        raise Infra("XsLib driver refused a request: " + str([r[:200] for r, m in zip(req, model) if m in ("bad-op", "out-of-domain")][:2]))
+        raise Infra("XsLib driver refused a request: " + str([r[:200] for r, m in zip(req + req2, model) if m in ("bad-op", "out-of-domain")][:2]))
+    ctx.compare("Model/XsLib.lean mergeAll vs IsotxsLibrary.merge going on after rejections", cases2, model[len(req):], impl2)
+    model = model[:len(req)]
     ctx.compare("Model/XsLib.lean mergeSeq vs IsotxsLibrary.merge", cases, model, impl)
+    # the hypotheses of the merge theorems (Lib.WF, no file-wide chi) evaluated on every library that was merged
+    libs = list(wfset)
+    verdicts = []
+    for k in range(0, len(libs), 40):
+        verdicts += lean_run("XsLib", ["wf " + " ".join(libs[k:k + 40])])[0].split(" ")
+    for enc, v in zip(libs, verdicts):
+        ctx.count("theorem hypothesis Lib.WF on a merged library: " + ("holds" if v == "T" else "FAILS (" + wfset[enc] + ")"))
+    if len(verdicts) != len(libs) or any(v not in ("T", "F") for v in verdicts):
+        from harness.common import Infra
+        raise Infra("XsLib driver: wf answer malformed")
     ctx.samples.append({"request": req[-1][:300], "model": model[-1][:300], "impl": impl[-1][:300]})
 
 
@@ -1275,6 +1492,250 @@ def run_macro(ctx):
     ctx.samples.append({"request": pending[0][0][:300], "model": model[0][:200], "impl": str(show_impl(pending[0][3]))[:200]})
 
 
+# ----------------------------------------------------------------------------- the creator as a whole, multiplier library
+RXN9 = ["nGamma", "nalph", "np", "nd", "nt", "fission", "n2n", "total", "transport"]
+
+
+def add_gamma_collections(rng, spec, ng):
+    """give every nuclide of a gen_macro_lib spec a gammaXS collection over ng + 1 gamma groups (all reactions present)"""
+    ngam = ng + 1
+    for _lab, n in spec["nucs"]:
+        g = {r: [dy(rng, 0, 4) if rng.random() < 0.8 else 0.0 for _ in range(ngam)] for r in RXN1 + ["neutronsPerFission", "chi"]}
+        g["total"] = [[dy(rng, 0, 8)] for _ in range(ngam)]
+        g["transport"] = [[dy(rng, 1, 8)] for _ in range(ngam)]
+        for a in ("elasticScatter", "inelasticScatter", "n2nScatter"):
+            if rng.random() < 0.8:
+                g[a] = [[dy(rng, 0, 2) if rng.random() < 0.5 else 0.0 for _ in range(ngam)] for _ in range(ngam)]
+        n["gammaXS"] = g
+        n["gamisoMetadata"] = {"nuclideId": n["isotxsMetadata"]["nuclideId"]}
+    return ngam
+
+
+def opt_vec(v):
+    return "N" if v is None else enc_vec(np.asarray(v, dtype=float).ravel())
+
+
+def opt_mat(m):
+    return "N" if m is None else enc_mat(m.toarray() if hasattr(m, "toarray") else m)
+
+
+def creator_request(ref, suf, lib_type, ng, min_dens, build_scatter, nuc_names, dens_of):
+    """the model's view of one createMacrosFromMicros call: names interned by their rank in str order"""
+    libnucs = ref.getNuclides(suf)
+    rank = {nm: i for i, nm in enumerate(sorted(set(nuc_names) | {n.name for n in libnucs}))}
+    items = ",".join(f"[{rank[nm]},{rat(dens_of[nm])}]" for nm in nuc_names)
+    rows = []
+    for n in libnucs:
+        c = getattr(n, lib_type)
+        rows.append(f"[{rank[n.name]},[" + ",".join(opt_vec(getattr(c, r)) for r in RXN9) + f"],{opt_vec(c.neutronsPerFission)},"
+                    f"{opt_mat(c.elasticScatter)},{opt_mat(c.inelasticScatter)},{opt_mat(c.n2nScatter)}]")
+    return f"creator {ng} {rat(min_dens)} {'T' if build_scatter else 'F'} [{items}] [{','.join(rows)}]"
+
+
+def exact_chi(ref, suf, dens_all, ng):
+    """block-average chi by its defining formula in exact arithmetic (None when some library nuclide lacks the data)"""
+    num = [Fraction(0)] * ng
+    den = Fraction(0)
+    for n in ref.getNuclides(suf):
+        m = n.micros
+        if m.chi is None or m.neutronsPerFission is None or m.fission is None:
+            return None
+        d = frac(dens_all.get(n.name, 0.0))
+        f = sum(frac(a) * frac(b) for a, b in zip(np.asarray(m.neutronsPerFission, dtype=float), np.asarray(m.fission, dtype=float)))
+        num = [x + frac(c) * d * f for x, c in zip(num, np.asarray(m.chi, dtype=float))]
+        den += d * f
+    return [x / den for x in num] if den != 0 else [Fraction(0)] * ng
+
+
+def creator_clauses(lib, ref, suf, comp, lib_type, passed, min_dens, build_scatter, ng, groups, case):
+    """one createMacrosFromMicros call on the real classes + the property's clauses on what it returns.
+    Returns (call result, [(key, clause, case, observed, expected), ...])"""
+    from armi.nuclearDataIO import xsCollections as xc
+    out = []
+    nuc_names = list(comp) if passed is None else list(passed)
+    eff = {nm: comp[nm] for nm in nuc_names if comp[nm] > min_dens}
+    mc = xc.MacroscopicCrossSectionCreator(buildScatterMatrix=build_scatter, minimumNuclideDensity=min_dens)
+    res = call(mc.createMacrosFromMicros, lib, StubBlock(comp, suf), passed, libType=lib_type)
+    if res[0] != "ok":
+        okall = all(direct_sum(ref, eff, suf, r9, lib_type, None) is not None for r9 in RXN9)
+        if okall and eff:
+            out.append(("creator-rejects-valid-composition", "macros exist for a composition fully covered by the library", case, res[1], None))
+        return res, out
+    m = res[1]
+    # every reaction over the EFFECTIVE composition, derived sums, scatter sums, chi
+    for r9 in RXN9[:7]:
+        want = direct_sum(ref, eff, suf, r9, lib_type, None)
+        if want is None or not vec_close(getattr(m, r9), want):
+            out.append(("macro-weighted-sum", "creator reaction = sum_n N_n * sigma_n over nucNames with density above the minimum",
+                        dict(case, reaction=r9), np.asarray(getattr(m, r9)).tolist(), None if want is None else [float(x) for x in want]))
+    want = direct_sum(ref, eff, suf, "fission", lib_type, "neutronsPerFission")
+    if want is None or not vec_close(m.nuSigF, want):
+        out.append(("macro-weighted-sum", "nuSigF = sum_n N_n * nu_n * sigma_f,n", dict(case, reaction="nuSigF"), np.asarray(m.nuSigF).tolist(), None))
+    absum = sum(getattr(m, r9) for r9 in ("nGamma", "fission", "nalph", "np", "nd", "nt", "n2n"))
+    if not np.allclose(m.absorption, absum, rtol=1e-12, atol=0):
+        out.append(("derived-absorption", "absorption = nGamma+fission+nalph+np+nd+nt+n2n", case, m.absorption.tolist(), absum.tolist()))
+    ts = (m.elasticScatter + m.inelasticScatter + 2.0 * m.n2nScatter).toarray()
+    if not np.allclose(m.totalScatter.toarray(), ts, rtol=1e-12, atol=0):
+        out.append(("derived-total-scatter", "totalScatter = elastic + inelastic + 2*n2n", case, None, None))
+    rem = m.absorption - m.n2n + ts.sum(axis=0) - np.diag(ts)
+    if not np.allclose(m.removal, rem, rtol=1e-12, atol=1e-300):
+        out.append(("derived-removal", "removal = absorption - n2n + out-scatter", case, m.removal.tolist(), rem.tolist()))
+    if build_scatter:
+        for a in ("elasticScatter", "inelasticScatter", "n2nScatter"):
+            want = np.zeros((groups, groups))
+            for k, v in eff.items():
+                nuc = lookup(ref, k, suf)
+                if nuc is not None and getattr(getattr(nuc, lib_type), a) is not None:
+                    want = want + v * getattr(getattr(nuc, lib_type), a).toarray()
+            if not np.allclose(getattr(m, a).toarray(), want, rtol=1e-12, atol=0):
+                out.append(("macro-scatter-weighted-sum", "macroscopic scatter matrix = sum_n N_n * matrix_n", dict(case, matrix=a), None, None))
+    chi = exact_chi(ref, suf, comp, ng)
+    if chi is not None and not vec_close(m.chi, chi):
+        out.append(("macro-chi-weighted-average", "block chi = sum_n chi_n N_n F_n / sum_n N_n F_n with F_n = sum_g nu_g sigma_f,g",
+                    case, np.asarray(m.chi).tolist(), [float(x) for x in chi]))
+    return res, out
+
+
+def multlib_clause(lib, ref, mlib, mref, suf, comp, rxn, mult, case):
+    """computeMacroscopicGroupConstants(..., multLib=mlib): (call result, model entries, failure or None)"""
+    from armi.nuclearDataIO import xsCollections as xc
+    res = call(xc.computeMacroscopicGroupConstants, rxn, comp, lib, suf, libType="micros", multConstant=mult, multLib=mlib)
+    ents, total, undefined = [], None, False
+    for name, d in sorted(comp.items()):
+        nuc = lookup(ref, name, suf)
+        if nuc is None:
+            ents.append(f"[[M,{rat(d)}],F]")
+            undefined = undefined or bool(d)
+            continue
+        mn = lookup(mref, name, suf)
+        v = get_attr_arr(nuc, rxn, "micros")
+        if mn is None:
+            ents.append(f"[[P,{rat(d)},{opt_vec(v)},[U]],F]")
+            continue
+        mv = getattr(mn.micros, mult, None) if mult == "neutronsPerFission" else mn.isotxsMetadata[mult]
+        mm = "[N]" if mv is None else ("[V," + enc_vec(np.asarray(mv, dtype=float).ravel()) + "]" if mult == "neutronsPerFission" else f"[S,{rat(mv)}]")
+        ents.append(f"[[P,{rat(d)},{opt_vec(v)},{mm}],T]")
+        if d and mv is not None and v is not None:
+            mvec = [frac(x) for x in np.asarray(mv, dtype=float).ravel()] if mult == "neutronsPerFission" else [frac(mv)] * len(v)
+            term = [frac(d) * frac(x) * k for x, k in zip(v, mvec)]
+            total = term if total is None else [a + b for a, b in zip(total, term)]
+        elif d:
+            undefined = True
+    f = None
+    if res[0] == "ok" and res[1] is not None and (undefined or total is None or not vec_close(res[1], total)):
+        f = ("macro-weighted-sum", "constant = sum over nuclides held by both libraries of N_n * sigma_n(lib) * multiplier_n(multLib); "
+             "a nuclide with non-zero density missing from lib is refused", case, np.asarray(res[1]).tolist(),
+             None if total is None else [float(x) for x in total])
+    return res, ents, f
+
+
+def run_creator(ctx):
+    """createMacrosFromMicros as ONE model call (densities filter, nucNames, sorted lookups, every reaction, absorption,
+    scatter matrices, total scatter, removal) for neutron and gamma libraries; computeMacroscopicGroupConstants with a
+    separate multiplier library."""
+    from armi.nuclearDataIO import xsCollections as xc
+    rng = ctx.rng
+    pending = []   # (request, what, case, parts-or-result)
+
+    def fail(key, clause, case, obs, exp=None):
+        ctx.count("oracle failure: " + key)
+        if ctx.hist["oracle failure: " + key] <= 3:
+            ctx.fail(key, clause, case, observed=obs, expected=exp)
+
+    for li in range(ctx.pick(30, 300)):
+        spec, ng, suf, names = gen_macro_lib(rng, ctx)
+        ngam = add_gamma_collections(rng, spec, ng)
+        libid = {"lib": spec}
+        lib, ref = macro_libs(libid)
+        fp0 = micro_fingerprint(ref)
+        for ci in range(ctx.pick(4, 6)):
+            comp = {nm: (dy(rng, 0, 4, 4) if rng.random() < 0.85 else 0.0) for nm in rng.sample(names, rng.randint(1, len(names)))}
+            r = rng.random()
+            if r < 0.08:
+                comp[rng.choice([n for n in NAMES if n not in names] or ["HE4"])] = rng.choice([0.0, dy(rng, 0, 2, 4)])
+            lib_type = "micros" if rng.random() < 0.65 else "gammaXS"
+            groups = ng if lib_type == "micros" else ngam
+            r = rng.random()
+            min_dens = 0.0 if r < 0.5 else rng.choice(sorted(comp.values())[:-1] or [0.0]) if r < 0.9 else dy(rng, 0, 2, 4)
+            build_scatter = rng.random() < 0.8
+            r = rng.random()
+            if r < 0.45:
+                nuc_names, passed = list(comp), None
+            else:
+                nuc_names = rng.sample(sorted(comp), rng.randint(1, len(comp)))
+                if rng.random() < 0.3:
+                    nuc_names.append(rng.choice(nuc_names))
+                passed = nuc_names
+            eff = {nm: comp[nm] for nm in nuc_names if comp[nm] > min_dens}
+            case = dict(libid, suffix=suf, composition=comp, function="createMacrosFromMicros(whole)", libType=lib_type,
+                        nucNames=passed, minimumNuclideDensity=min_dens, buildScatterMatrix=build_scatter)
+            ctx.case(("creator", li, ci), nontrivial=bool(eff))
+            ctx.count(f"creator call: libType={lib_type}, nucNames={'given' if passed else 'default'}, "
+                      f"minDens={'0' if not min_dens else '>0'}, scatter={'built' if build_scatter else 'skipped'}")
+            # hypotheses of the macroscopic theorems on the real arrays: vectors of `groups` entries, square matrices
+            shapes_ok = all((getattr(getattr(n, lib_type), r9) is None or np.asarray(getattr(getattr(n, lib_type), r9)).shape[0] == groups)
+                            for n in ref.getNuclides(suf) for r9 in RXN9) and \
+                all((getattr(getattr(n, lib_type), a) is None or getattr(getattr(n, lib_type), a).shape == (groups, groups))
+                    for n in ref.getNuclides(suf) for a in ("elasticScatter", "inelasticScatter", "n2nScatter"))
+            ctx.count("theorem hypothesis (vector lengths = ng, Mat.square ng) on the library: " + ("holds" if shapes_ok else "FAILS"))
+            res, fails = creator_clauses(lib, ref, suf, comp, lib_type, passed, min_dens, build_scatter, ng, groups, case)
+            req = creator_request(ref, suf, lib_type, groups, min_dens, build_scatter, nuc_names, comp)
+            ctx.count("creator(whole) " + ("ok" if res[0] == "ok" else "rejected " + str(res[1])))
+            for f in fails:
+                fail(*f)
+            if res[0] != "ok":
+                pending.append((req, "creator (whole) vs createMacrosFromMicros", case, None))
+                continue
+            m = res[1]
+            parts = [np.concatenate([np.asarray(getattr(m, r9), dtype=float).ravel() for r9 in RXN9[:7]]), m.nuSigF,
+                     np.asarray(m.total).ravel(), np.asarray(m.transport).ravel(), m.absorption, m.elasticScatter.toarray(),
+                     m.inelasticScatter.toarray(), m.n2nScatter.toarray(), m.totalScatter.toarray(), m.removal]
+            pending.append((req, "creator (whole) vs createMacrosFromMicros", case, parts))
+        # --- computeMacroscopicGroupConstants with a separate multiplier library
+        sub = rng.sample(names, rng.randint(1, len(names)))
+        spec2, _, _, _ = gen_macro_lib(rng, ctx, names=sub, suf=suf, ng=ng)
+        spec2["nucs"] = [x for x in spec2["nucs"] if not x[0].endswith("QQ")]
+        mlib, mref = macro_libs({"lib": spec2})
+        for ci in range(ctx.pick(3, 5)):
+            comp = gen_composition(rng, names)
+            rxn = rng.choice(RXN1)
+            mult = rng.choice(["neutronsPerFission", "efiss", "ecapt"])
+            case = dict(libid, suffix=suf, composition=comp, reaction=rxn, libType="micros", multConstant=mult, multLib={"lib": spec2})
+            res, ents, f = multlib_clause(lib, ref, mlib, mref, suf, comp, rxn, mult, case)
+            pending.append(("macromult [" + ",".join(ents) + "]", "macroXSMult vs computeMacroscopicGroupConstants(multLib)", case, ("res", res)))
+            ctx.case(("multlib", li, ci), nontrivial=any(comp.values()))
+            ctx.count("multLib call: " + ("rejected" if res[0] != "ok" else "None" if res[1] is None else "array"))
+            if f:
+                fail(*f)
+        if micro_fingerprint(lib) != fp0:
+            fail("macro-creation-mutates-microscopic-data", "computing macroscopic constants never changes the library's microscopic data",
+                 dict(libid, suffix=suf, composition=comp, function="createMacrosFromMicros"), "microscopic arrays changed")
+    model = lean_run("XsLib", [p[0] for p in pending])
+    bad = [p[0][:200] for p, ml in zip(pending, model) if ml == "bad-op"]
+    if bad:
+        from harness.common import Infra
+        raise Infra("XsLib driver refused a creator request: " + str(bad[:2]))
+    for (rq, what, case, parts), ml in zip(pending, model):
+        ctx.evaluations += 1
+        ctx.count("macro request: " + rq.split(" ")[0])
+        if isinstance(parts, tuple) and parts and isinstance(parts[0], str) and parts[0] == "res":
+            compare_vec(ctx, what, case, ml, parts[1])
+            continue
+        if parts is None or ml == "reject":
+            if not (parts is None and ml == "reject"):
+                ctx.disagree(what, case, ml[:200], "reject" if parts is None else "ok")
+            continue
+        mparts = ml.split(" ")
+        if len(mparts) != len(parts):
+            ctx.disagree(what, case, ml[:200], "10 parts")
+            continue
+        for name, mp, ip in zip(("basics", "nuSigF", "total", "transport", "absorption", "elasticScatter", "inelasticScatter",
+                                 "n2nScatter", "totalScatter", "removal"), mparts, parts):
+            compare_vec(ctx, what + "." + name, case, mp, ("ok", np.asarray(ip, dtype=float)))
+    if pending:
+        ctx.samples.append({"request": pending[0][0][:300], "model": model[0][:200]})
+
+
 def macros_vs_reference(m, ref, comp, suf):
     """clauses of one createMacrosFromMicros result against an independent reference library: every reaction, the three
     scatter matrices, total scatter, absorption and removal = the sums over THIS suffix's nuclides. Returns failures."""
@@ -1416,6 +1877,138 @@ def run_reuse(ctx):
             ctx.count("macro request (reuse): " + rq.split(" ")[0])
 
 
+# ----------------------------------------------------------------------------- merging the files of a working directory
+def workdir_flow(case):
+    """run mergeXSLibrariesInWorkingDirectory on a scratch directory holding case['files'] (fixture -> name) and decoys;
+    returns (error or None, snapshot of the library, snapshot of reading + merging case['expect'] directly)"""
+    import os
+    import shutil
+    import armi
+    from harness import common
+    from armi.nuclearDataIO import xsLibraries
+    from armi.nuclearDataIO.cccc import gamiso, isotxs, pmatrx
+    it = Intern()
+    attrs = coll_attrs()
+    fx = os.path.join(os.path.dirname(armi.__file__), "nuclearDataIO", "tests", "fixtures")
+    with common.scratch_dir() as _d:
+        d = os.getcwd()
+        for src, dst in case["files"]:
+            shutil.copy(os.path.join(fx, src), os.path.join(d, dst))
+        for dst in case.get("decoys", []):
+            with open(os.path.join(d, dst), "w") as f:
+                f.write("not a library")
+        lib = xsLibraries.IsotxsLibrary()
+        err = None
+        try:
+            for suffix in case["calls"]:
+                xsLibraries.mergeXSLibrariesInWorkingDirectory(lib, suffix, mergeGammaLibs=case["gamma"], alternateDirectory=d)
+        except Exception as e:  # noqa
+            err = type(e).__name__ + ": " + str(e)[:80]
+        ref = xsLibraries.IsotxsLibrary()
+        for name in case["expect"]:
+            rd = gamiso if name.endswith("gamiso") else pmatrx if name.endswith("pmatrx") else isotxs
+            ref.merge(rd.readBinary(os.path.join(d, name)))
+        return err, snap(it, lib, attrs), snap(it, ref, attrs)
+
+
+def workdir_judge(case, key=None):
+    """the property's clauses on one working-directory merge: [(key, clause, case, observed, expected)]"""
+    err, got, want = workdir_flow(case)
+    if err:
+        return [(key or "workdir-merge-raises", "the files selected in the working directory merge into the library", case, err, None)], err
+    if {n[0] for n in got[2]} != {n[0] for n in want[2]}:
+        return [(key or "workdir-merge-labels", "library = union of the nuclides of the selected files", case, len(got[2]), len(want[2]))], err
+    if content(got)[2] != content(want)[2] or content(got)[0] != content(want)[0]:
+        return [(key or "workdir-merge-content", "nuclide data and group structure identical to reading and merging the files directly",
+                 case, None, None)], err
+    return [], err
+
+
+def selection_clause(sfx, names, prefix):
+    """getISOTXSLibrariesToMerge: which files are merged does not depend on the directory they are listed with"""
+    import os
+    from armi.nuclearDataIO import xsLibraries
+    plain = xsLibraries.getISOTXSLibrariesToMerge(sfx, list(names))
+    full = xsLibraries.getISOTXSLibrariesToMerge(sfx, [os.path.join(prefix, n) for n in names])
+    extra = {os.path.basename(f) for f in full} - set(plain)
+    missing = set(plain) - {os.path.basename(f) for f in full}
+    if extra or missing or len(full) != len(plain):
+        return ("workdir-merge-unsuffixed-file-not-shadowed" if (sfx and extra and not missing and all("-" not in e for e in extra))
+                else "workdir-selection-depends-on-directory",
+                "which library files are merged does not depend on the directory they are listed with",
+                {"suffix": sfx, "names": list(names), "prefix": prefix}, sorted(os.path.basename(f) for f in full), sorted(plain))
+    return None
+
+
+def run_workdir(ctx):
+    """mergeXSLibrariesInWorkingDirectory / getISOTXSLibrariesToMerge on scratch copies of the fixture files: the library
+    ends up with exactly what reading the selected files and merging them one by one gives (union of labels, same content),
+    decoy files are left alone, files merged earlier are skipped."""
+    import os
+    rng = ctx.rng
+
+    def fail(key, clause, case, obs, exp=None):
+        ctx.count("oracle failure: " + key)
+        if ctx.hist["oracle failure: " + key] <= 3:
+            ctx.fail(key, clause, case, observed=obs, expected=exp)
+
+    def judge(case, key=None):
+        fails, err = workdir_judge(case, key)
+        ctx.case(("workdir", json.dumps(case, sort_keys=True)))
+        ctx.count("working-directory merge: " + ("ok" if not err else "raised"))
+        for f in fails:
+            fail(*f)
+
+    iso = {"AA": "ISOAA", "AB": "ISOAB"}
+    cases = []
+    for _ in range(ctx.pick(5, 30)):
+        ids = rng.sample(["AA", "AB"], rng.choice([1, 2, 2]))
+        gamma = rng.random() < 0.5
+        sfx = rng.choice(["", "", "-n1", "-doppler"])
+        files, expect = [], []
+        for x in sorted(ids):
+            files.append((iso[x], "ISO" + x + sfx))
+            expect.append("ISO" + x + sfx)
+            if gamma:
+                files += [(x + ".gamiso", x + ".gamiso"), (x + ".pmatrx", x + ".pmatrx")]
+                expect += [x + ".gamiso", x + ".pmatrx"]
+        decoys = rng.sample(["ISOTXS", "ISOAA.ascii", "ISOTXS.BCD", "ISOAB.BCD", "ISOTXS-c2"], rng.randint(0, 3))
+        if sfx:
+            other = [x for x in ("AA", "AB") if x not in ids]
+            if other and rng.random() < 0.6:     # an XS ID that only exists without the suffix is merged too
+                files.append((iso[other[0]], "ISO" + other[0]))
+                expect.append("ISO" + other[0])
+                if gamma:
+                    files += [(other[0] + ".gamiso", other[0] + ".gamiso"), (other[0] + ".pmatrx", other[0] + ".pmatrx")]
+                    expect += [other[0] + ".gamiso", other[0] + ".pmatrx"]
+            decoys.append("ISO" + ids[0] + "-zz9")  # another suffix: not to be merged
+        # a second call finds everything already merged (only without suffix: with one, the function re-reads the library
+        # from a file it wrote under another name, "ISOAA--n1", so the "already merged" test never matches - not C10's subject)
+        calls = [sfx] if (sfx or rng.random() < 0.5) else [sfx, sfx]
+        cases.append({"files": [list(f) for f in files], "decoys": decoys, "expect": expect, "calls": calls, "gamma": gamma})
+    for case in cases:
+        judge(case)
+    # file selection, function level: the choice does not depend on the directory the names are prefixed with
+    for _ in range(ctx.pick(40, 400)):
+        sfx = rng.choice(["", "-n1", "-doppler", "-n23"])
+        names = set()
+        for x in rng.sample(["AA", "AB", "BA", "CA", "DA"], rng.randint(1, 4)):
+            for form in rng.sample(["", sfx, "-zz9", "F" + sfx, ".BCD", ".ascii"], rng.randint(1, 3)):
+                names.add("ISO" + x + form)
+        names |= set(rng.sample(["ISOTXS", "ISOTXS-c2", "dummyISOTXS", "ISOTXS.BCD"], rng.randint(0, 2)))
+        names = sorted(names)
+        shadowed = sfx and any(("ISO" + n[3:5]) in names and n.endswith(sfx) and "-" in n and not n[5:].startswith("F") for n in names)
+        for prefix in ("some-dir", os.path.join(os.sep, "tmp", "run1")):
+            ctx.case(("select", sfx, tuple(names), prefix))
+            ctx.count("file selection: " + ("suffix shadows an unsuffixed file" if shadowed else "no shadowing"))
+            f = selection_clause(sfx, names, prefix)
+            if f:
+                fail(*f)
+    # excluded point: ISOAA and ISOAA-n1 side by side, suffix -n1: documented choice = ISOAA-n1 (+ ISOAB); the code also merges ISOAA
+    judge({"files": [["ISOAA", "ISOAA"], ["ISOAA", "ISOAA-n1"], ["ISOAB", "ISOAB"]], "decoys": [], "expect": ["ISOAA-n1", "ISOAB"],
+           "calls": ["-n1"], "gamma": False}, key="workdir-merge-unsuffixed-file-not-shadowed")
+
+
 # ----------------------------------------------------------------------------- file-wide chi (oracle side)
 CHI_FIX = {}
 
@@ -1551,9 +2144,32 @@ def chi_oracle(ctx, make, names, orders, sink, roundtrip):
              {"chi_libs": [names[i] for i in b], "order": list(range(len(b)))}, {"orders": [list(a), list(b)]}, None)
 
 
+def chi_correspondence(it, attrs, make, names, orders, req, impl, cases):
+    """Model/XsLib.lean mergeAllChi (file-wide chi + chiFlag side effect transcribed) vs the real merges, going on after
+    rejections; the whole canonical state is compared (chiFlag / fileWideChiFlag / chi entries included)"""
+    from armi.nuclearDataIO import xsLibraries
+    for order in orders:
+        target = xsLibraries.IsotxsLibrary()
+        srcs = [snap(it, make(names[i]), attrs, keep_order=True) for i in order]
+        flags = []
+        for i in order:
+            try:
+                target.merge(make(names[i]))
+                flags.append("T")
+            except Exception:  # noqa
+                flags.append("F")
+        req.append(op("mergeallchi") + " " + " ".join(enc_lib(x) for x in srcs))
+        impl.append("[" + ",".join(flags) + "] " + enc_lib(snap(it, target, attrs)))
+        cases.append({"chi_libs": [names[i] for i in order], "order": list(range(len(order)))})
+
+
 def run_chi(ctx):
-    """file-wide chi: outside the Lean model (the driver refuses such libraries); judged by the oracle alone"""
+    """file-wide chi: the oracle clauses on the real classes (every fissile nuclide keeps a usable chi, chi = source's,
+    write / read round trip, all orders) AND the correspondence with Lib.mergeChi / mergeAllChi of the Lean model"""
     rng = ctx.rng
+    it = Intern()
+    attrs = coll_attrs()
+    req, impl, cases = [], [], []
 
     def sink(key, clause, case, obs, exp):
         ctx.count("oracle failure: " + key)
@@ -1566,10 +2182,13 @@ def run_chi(ctx):
         sets += [["fwAA", "fwAB", "gamAA"], ["isoAA", "fwAB", "gamAB"], ["fwAA", "gamAB", "isoAB"], ["fwAA", "fwAB", "pmAB"]]
     for names in sets:
         chi_oracle(ctx, chi_fixture, names, list(itertools.permutations(range(len(names)))), sink, roundtrip=True)
+        chi_correspondence(it, attrs, chi_fixture, names, list(itertools.permutations(range(len(names)))), req, impl, cases)
         ctx.case(("chi-fixtures", tuple(names)))
     # excluded point: a merge rejected by a LATER nuclide collision after _mergeMetadata has already rewritten chiFlags
     chi_oracle(ctx, chi_fixture, ["fwAA", "fwAA"], [(0, 1)], sink, roundtrip=False)
     chi_oracle(ctx, chi_fixture, ["fwAA", "gamAA", "fwAB", "fwAA"], [(0, 1, 2, 3), (1, 2, 0, 3)], sink, roundtrip=False)
+    chi_correspondence(it, attrs, chi_fixture, ["fwAA", "fwAA", "fwAB"], [(0, 1, 2)], req, impl, cases)
+    chi_correspondence(it, attrs, chi_fixture, ["fwAA", "gamAA", "fwAB", "fwAA", "isoAB"], [(0, 1, 2, 3, 4), (1, 2, 0, 3, 4)], req, impl, cases)
     for _ in range(ctx.pick(25, 300)):
         ng = rng.choice([1, 2, 3])
         k = rng.choice([2, 2, 3])
@@ -1579,7 +2198,19 @@ def run_chi(ctx):
             suf = specs[0]["nucs"][0][0][-2:]
             specs.append(gen_lib(rng, "gam", suf, [specs[0]["nucs"][0][0][:-2]], ng, 2, suf + ".gamiso"))
         chi_oracle(ctx, build, specs, list(itertools.permutations(range(len(specs)))), sink, roundtrip=False)
+        if rng.random() < 0.4:   # a duplicate somewhere: rejected merges in the middle of a file-wide-chi sequence
+            specs = specs + [json.loads(json.dumps(rng.choice(specs)))]
+        chi_correspondence(it, attrs, build, specs, merge_orders(len(specs), rng, ctx.pick(3, 6)), req, impl, cases)
         ctx.case(("chi-generated", hash(json.dumps(specs, sort_keys=True))))
+    model = lean_run("XsLib", req)
+    if any(m == "bad-op" for m in model):
+        from harness.common import Infra
+        raise Infra("XsLib driver refused a file-wide-chi request: " + str([r[:200] for r, m in zip(req, model) if m == "bad-op"][:2]))
+    keep = [i for i, m in enumerate(model) if m != "out-of-domain"]
+    ctx.count("file-wide-chi sequences compared with mergeAllChi", len(keep))
+    ctx.count("file-wide-chi sequences outside the model (fisFlag not in {absent, 0, 1})", len(model) - len(keep))
+    ctx.compare("Model/XsLib.lean mergeAllChi vs IsotxsLibrary.merge with file-wide chi", [cases[i] for i in keep],
+                [model[i] for i in keep], [impl[i] for i in keep])
 
 
 def run(ctx):
@@ -1588,16 +2219,24 @@ def run(ctx):
     try:
         run_merge(ctx)
         run_macro(ctx)
+        run_creator(ctx)
         run_reuse(ctx)
         run_chi(ctx)
+        run_workdir(ctx)
     finally:
         logging.disable(logging.NOTSET)
-    ctx.rule = ("merge: seeded scenarios of 2-4 libraries (iso/gamiso/pmatrx-like and pre-merged mixes, 1-33 groups, 1-4 nuclides "
-                "per suffix, optional reactions, sparse scatter, 8 kinds of injected conflict) + the six fixture libraries, every "
-                "merge order (<= 24); one case = one ordered merge sequence, distinct by the canonical source snapshots, "
-                "non-trivial when >= 2 libraries. macros: seeded libraries x compositions (zero densities, missing nuclides, "
-                "missing reactions); one case = one composition on one library, non-trivial when some density is non-zero. "
-                "reuse: one creator over 2-5 blocks with alternating XS IDs on merged two/three-ID libraries, both block orders.")
+    ctx.rule = ("merge: seeded scenarios of 2-5 libraries (iso/gamiso/pmatrx-like and pre-merged mixes, 1-33 groups, 1-4 nuclides "
+                "per suffix, optional reactions, sparse scatter, higher-order scatter / n-order production payloads, 8 kinds of "
+                "injected conflict) + the six fixture libraries, every merge order (<= 24); every nuclide-level conflict kind x "
+                "position (first/middle/last) of the conflicting nuclide; sequences that go on after rejected merges; one case = "
+                "one ordered merge sequence, distinct by the canonical source snapshots, non-trivial when >= 2 libraries (go-on: "
+                "when an accepted merge follows a rejected one). macros: seeded libraries x compositions (zero densities, missing "
+                "nuclides, missing reactions); one case = one composition on one library, non-trivial when some density is "
+                "non-zero. creator: one createMacrosFromMicros call (neutron / gamma libType, nucNames given or not, minimum "
+                "density, scatter built or not) or one computeMacroscopicGroupConstants call with a multiplier library. "
+                "reuse: one creator over 2-5 blocks with alternating XS IDs on merged two/three-ID libraries, both block orders. "
+                "chi: 0-3 file-wide-chi libraries in every order, oracle + mergeAllChi. workdir: scratch directories of fixture "
+                "files (suffixes, decoys, gamma on/off) and generated file-name lists.")
 
 
 # ----------------------------------------------------------------------------- search / replay
@@ -1627,10 +2266,40 @@ def search(ctx, disagreements, broken):
                     subitems = [items[i] for i in sub]
                     oracle_scenario(ctx, it, attrs, subitems, c.get("tag", "?"), None,
                                     list(itertools.permutations(range(size))), sink)
+        elif isinstance(c, dict) and "chi_libs" in c:
+            names = c["chi_libs"]
+            k = json.dumps(sorted(json.dumps(x, sort_keys=True, default=str) for x in names))
+            if k in seen:
+                continue
+            seen.add(k)
+            fixtures = all(isinstance(x, str) for x in names)
+            sub = type(ctx)(ctx.prop, "quick", ctx.seed)
+            chi_oracle(sub, chi_fixture if fixtures else build, names, list(itertools.permutations(range(len(names))))[:24], sink,
+                       roundtrip=fixtures)
         elif isinstance(c, dict) and "blocks" in c:
             libid = {k: c[k] for k in ("merged_libs", "merged_fixtures", "scale") if k in c}
             for order in (c["blocks"], c["blocks"][::-1]):
                 reuse_sequence(libid, [(x, sfx) for x, sfx in order], "loop", sink)
+        elif isinstance(c, dict) and "composition" in c and c.get("function") == "createMacrosFromMicros(whole)":
+            lib, ref = macro_libs(c)
+            ng = ref.numGroups
+            for lt in ("micros", "gammaXS"):
+                for names in (c.get("nucNames"), None):
+                    for md in (c["minimumNuclideDensity"], 0.0):
+                        for bs in (True, False):
+                            cv = dict(c, libType=lt, nucNames=names, minimumNuclideDensity=md, buildScatterMatrix=bs)
+                            _res, fails = creator_clauses(lib, ref, c["suffix"], c["composition"], lt, names, md, bs, ng,
+                                                          ng if lt == "micros" else ref.numGroupsGamma, cv)
+                            out.extend(Failure(f[0], f[1], f[2], f[3], f[4]) for f in fails[:2])
+        elif isinstance(c, dict) and "composition" in c and "multLib" in c:
+            lib, ref = macro_libs(c)
+            mlib, mref = macro_libs(c["multLib"])
+            for rxn in RXN1:
+                for mult in ("neutronsPerFission", "efiss", "ecapt"):
+                    cv = dict(c, reaction=rxn, multConstant=mult)
+                    _res, _ents, f = multlib_clause(lib, ref, mlib, mref, c["suffix"], c["composition"], rxn, mult, cv)
+                    if f:
+                        out.append(Failure(f[0], f[1], f[2], f[3], f[4]))
         elif isinstance(c, dict) and "composition" in c:
             lib, _ref = macro_libs(c)
             comp, suf = c["composition"], c["suffix"]
@@ -1701,6 +2370,25 @@ def replay(ctx, payload):
                            [x["fixture"] for x in case["libs"]], random.Random(0),
                            lambda k, cl, c, o, e: hits.append({"key": k, "observed": o}))
         return hits[0] if hits else None
+    if isinstance(case, dict) and "files" in case and "calls" in case:
+        fails, _err = workdir_judge(case, key if key == "workdir-merge-unsuffixed-file-not-shadowed" else None)
+        hit = [f for f in fails if f[0] == key]
+        return {"key": key, "observed": hit[0][3]} if hit else None
+    if isinstance(case, dict) and "names" in case and "prefix" in case:
+        f = selection_clause(case["suffix"], case["names"], case["prefix"])
+        return {"key": f[0], "observed": f[3], "expected": f[4]} if f and f[0] == key else None
+    if isinstance(case, dict) and case.get("continue_after_rejection"):
+        it = Intern()
+        hits = []
+        steps, _final = run_all(it, coll_attrs(), case["libs"], tuple(case["order"]))
+        oracle_steps(it, steps, case, lambda k, cl, c, o, e: hits.append({"key": k, "clause": cl, "observed": o, "step": c.get("step")}))
+        hit = [h for h in hits if h["key"] == key]
+        return hit[0] if hit else None
+    if key == "rejected-merge-mutates-target-before-first-conflict":
+        r = run_order(Intern(), coll_attrs(), case["libs"], tuple(case["order"]))
+        if not r["ok"] and (r["nok"] != len(case["order"]) - 1 or norm_props(r["before"]) != norm_props(r["after"])):
+            return {"key": key, "observed": {"error": r["err"], "merges_ok_before": r["nok"]}}
+        return None
     if isinstance(case, dict) and "libs" in case:
         it = Intern()
         hits = []
@@ -1727,6 +2415,20 @@ def replay(ctx, payload):
                        lambda k, cl, c, o, e: hits.append({"key": k, "clause": cl, "observed": o}))
         hit = [h for h in hits if h["key"] == key]
         return hit[0] if hit else None
+    if isinstance(case, dict) and "composition" in case and case.get("function") == "createMacrosFromMicros(whole)":
+        lib, ref = macro_libs(case)
+        lt = case["libType"]
+        ng = ref.numGroups
+        res, fails = creator_clauses(lib, ref, case["suffix"], case["composition"], lt, case.get("nucNames"),
+                                     case["minimumNuclideDensity"], case["buildScatterMatrix"], ng,
+                                     ng if lt == "micros" else ref.numGroupsGamma, case)
+        hit = [f for f in fails if f[0] == key]
+        return {"key": key, "observed": hit[0][3], "expected": hit[0][4]} if hit else None
+    if isinstance(case, dict) and "composition" in case and "multLib" in case:
+        lib, ref = macro_libs(case)
+        mlib, mref = macro_libs(case["multLib"])
+        _res, _ents, f = multlib_clause(lib, ref, mlib, mref, case["suffix"], case["composition"], case["reaction"], case["multConstant"], case)
+        return {"key": f[0], "observed": f[3], "expected": f[4]} if f and f[0] == key else None
     if isinstance(case, dict) and "composition" in case:
         lib, _ref = macro_libs(case)
         comp, suf = case["composition"], case["suffix"]
